@@ -83,7 +83,8 @@ SCHEMES = ["http", "https", "ws", "wss", "ftp", "file", "x-y.z+1", "mailto", ""]
 USERINFO = ["", "u@", "u:p@", "u:@", ":p@", "u%40x:p%3Ay@", "us%20er:pa%2Fss@", "U:P@", "a+b:c=d@", "é:ü@"]
 HOSTS = ["example.com", "h", "127.0.0.1", "[::1]", "[fe80::1%25eth0]", "[2001:db8::ff00:42:8329]",
          "xn--bcher-kva.example", "EXAMPLE.Com", "bücher.example", "a.b.c.", "1.2.3", "[::ffff:1.2.3.4]",
-         "h_x", "a-b.c", "", "[v1.x]", "h%41", "0x7f.1", "[0:0:0:0:0:0:0:1]"]
+         "h_x", "a-b.c", "", "[v1.x]", "h%41", "0x7f.1", "[0:0:0:0:0:0:0:1]", "XN--bcher-kva.example", "Xn--Bcher-Kva.EXAMPLE",
+         "xn--bcher-kva.XN--p1ai", "BÜCHER.example", "ｅxample.com", "a。b", "[::1%25Eth0]", "[FE80::1]"]
 PORTS = ["", "", "", ":80", ":443", ":21", ":8080", ":0", ":65535", ":", ":081", ":80", ":8443"]
 BAD_PORTS = [":65536", ":x", ":-1", ": 1", ":+1", ":1_0"]
 PATHS = ["", "/", "/a", "/a/b", "/a/", "//a", "/a//b", "/a%2Fb/c", "/%C3%A9", "/a;p=1", "/a+b", "/a b",
